@@ -525,6 +525,16 @@ func init() {
 		}
 		return ex.tc.ff, false
 	}
+	// ---- context.WithValue: skip the reflectlite comparability check, build the real *valueCtx
+	I["context.WithValue"] = func(ex *Exec, th *Thread, fn *ssa.Function, a []Value) (Value, bool) {
+		parent, _ := a[0].(ifaceV)
+		if parent.t == nil {
+			ex.goPanic(th, ifaceV{t: ex.eng.runtimeErrT, v: strV{s: "cannot create context from nil parent"}}, "panic: cannot create context from nil parent")
+			return nil, false
+		}
+		var v Value = structV{a[0], a[1], a[2]}
+		return ifaceV{t: ex.eng.valueCtxPtrT, v: Ptr{slot: &v}}, false
+	}
 	// ---- runtime bits that interpreted std code touches
 	I["runtime.Gosched"] = func(ex *Exec, th *Thread, fn *ssa.Function, a []Value) (Value, bool) { return nil, false }
 	I["runtime.KeepAlive"] = I["runtime.Gosched"]
@@ -555,6 +565,25 @@ func init() {
 		need := ex.tc.Bin(OpAdd, sv.abs.length, n)
 		newCap := ex.tc.Ite(ex.tc.Bin(OpSLt, sv.abs.capa, need), need, sv.abs.capa)
 		return sliceV{abs: &absSlice{length: sv.abs.length, capa: newCap, elemT: sv.abs.elemT}}, false
+	}
+	// ---- Temporal's workflow -> shard hash: its only contract is "some shard in 1..n, fixed per
+	// (namespace id, workflow id)"; the shard is a case split, memoised per id.
+	I["go.temporal.io/server/common.WorkflowIDToHistoryShard"] = func(ex *Exec, th *Thread, fn *ssa.Function, a []Value) (Value, bool) {
+		n := int(ex.cint(a[2], "shardcount"))
+		if n <= 0 {
+			ex.runtimePanic(th, "integer divide by zero")
+			return nil, false
+		}
+		key := fmt.Sprintf("%s_%s:%d", cstr(a[0]), cstr(a[1]), n)
+		if v, ok := ex.wfShard[key]; ok {
+			return ex.tc.Const(32, uint64(v)), false
+		}
+		alt := 0
+		if n > 1 {
+			alt = ex.decide("wfshard:"+key, n, nil, false)
+		}
+		ex.wfShard[key] = alt + 1
+		return ex.tc.Const(32, uint64(alt+1)), false
 	}
 	// ---- farm hash: uninterpreted per distinct concrete input
 	I["github.com/dgryski/go-farm.Fingerprint32"] = func(ex *Exec, th *Thread, fn *ssa.Function, a []Value) (Value, bool) {
